@@ -544,3 +544,61 @@ _amend("C10", "Non-trivial: a function saw >=2 distinct tuples",
        "optimizer folds them into the function) is evaluated 2..8 times in sequence with 1..4 different irregularly sampled signals in a "
        "drawn order; every outcome must equal the outcome of a freshly generated function evaluated once with the same signal. "
        "Non-trivial: a function saw >=2 distinct tuples")
+
+# generators and oracles widened after the fourth and fifth round of seeded changes
+_amend("C01", "~20% of the programs may contain failing or ill-typed sub-terms.",
+       "6% of the non-negative int literals are spelled with one or two leading zeros (they stay decimal); 5% of the lets use the template 'a lazy "
+       "list (map, accept, iir, number, combine) is bound first, 2..5 further locals are declared behind it, and only then the list is read for the "
+       "first time'; ~20% of the programs may contain failing or ill-typed sub-terms.")
+_amend("C02", "closures that capture nothing, applied to argument-independent values, with host calls inside;",
+       "closures that capture nothing, applied to argument-independent values, with host calls inside - there 40% of the int case labels of a "
+       "switch are host calls ik(c)/pk(c);")
+_amend("C03", "spellings of 1..3 characters from an operator alphabet,",
+       "spellings of 1..3 characters from an operator alphabet that also holds symbols outside ASCII (U+2264 U+2227 U+00AC U+2248 U+2295),")
+_amend("C05", "nested try, and a lazy result that the host forces after Eval returned;",
+       "nested try, the body of a func statement (called, never called, nested in another func), the closures of the methods map, accept, replace "
+       "and combine of a MAP, and a lazy result that the host forces after Eval returned;")
+_amend("C05", "consumed sequentially, or returned lazily;",
+       "consumed sequentially, returned lazily, or as the SOURCE of a sequential map, of an accept, of a parallel map, or of the map/accept stages "
+       "inside two multiUse consumers (the fault has to pass through that stage);")
+_amend("C06", "15% of the pipelines contain one closure",
+       "a sixth of the closures read their element through an index into a lazy list they build themselves (numbers(3).number((i,k)->k+e)[0]); "
+       "15% of the pipelines contain one closure")
+_amend("C07", "up to 4 stages are composed before a terminal.",
+       "up to 4 stages are composed before a terminal; a sixth of the pipelines are bound to a local, 2..5 further locals are declared behind it and "
+       "only then the terminal reads it (the last local is returned with the result); map replace chains of 14 and 15 steps (beyond the flatten threshold) are generated.")
+_amend("C08", "in 1/6 of the cases the pipeline is only built",
+       "in 1/8 of the cases the counted list is the SECOND operand of a cross with 2..5 rows (run once per row, lazily); in 1/8 of the cases the "
+       "counted pipeline is the ITEM of an outer list numbers(R).map(r -> pipeline) and the consumer is applied to the rows an outer lazy consumer "
+       "selects (first; top(K).map; multiUse of {first row, top(K) rows}): demand = consumed rows x the demand of one consumption, rows nobody "
+       "consumes cost nothing; in 1/6 of the cases the pipeline is only built")
+_amend("C09", "size(), string() and be = to a freshly built literal of the model in both operand orders.",
+       "size(), string() and be = to a freshly built literal of the model in both operand orders; which of these observers sees a handle first - "
+       "before anything has iterated it - rotates from step to step, and all of them run again behind the full read.")
+_amend("C12", "a consumer that fails at once), 25% with a failing element)",
+       "a consumer that fails at once; a consumer that uses its list twice), 25% with a failing element, a third of them a host function that "
+       "panics, a sixth of the closures indexing a lazy list of their own)")
+_amend("C12", "error path part: five fixed shapes in which a merge operand or receiver (iterated by a goroutine of its own) fails at its 3rd/4th item "
+       "and has 4 000 000 items behind it, three evaluations each: 150 ms after the failed evaluation returned the counting closure of that operand "
+       "must have stopped (no background CPU work).",
+       "error path part: seven fixed shapes, three evaluations each - a merge operand or receiver (iterated by a goroutine of its own) fails at its "
+       "3rd/4th item and has 4 000 000 items behind it; a multiUse consumer uses its list twice while the other consumer still has 1 500 000 "
+       "counted calls to make behind the end of the list: once the failed evaluation has returned, the counting closure must stand still "
+       "(sampled 150 ms and 250 ms later: no background CPU work).")
+_amend("C13", "NewFuncMapFactory map,",
+       "NewFuncMapFactory map (with declared keys that are not available; also several maps of ONE shared factory whose available keys depend on the wrapped value),")
+_amend("C13", "m.k, get, isAvail and ~ for every pool key,",
+       "m.k, get, isAvail (also with 2..5 keys, repeated ones included) and ~ for every pool key,")
+_amend("C14", "min/max/list.min/list.max/minMax/order/switch must agree with < and =.",
+       "min/max/list.min/list.max/minMax/order/switch must agree with < and =; the list form a ~ b follows the model (every element of a is in b); "
+       "order and orderRev must fail in all six arrangements of three elements of which one is incomparable with both others.")
+_amend("C17", "a second export of the same value yields the same document.",
+       "a second export of the same value yields the same document, and the first document (and the document of the previous case) is unchanged afterwards.")
+_amend("C18", "lists of n-1..n+2 items around maxListSize (plain and rows),",
+       "lists of n-1..n+2 items around maxListSize (plain and rows; the limit is drawn from -1..5, a limit below one shows one entry),")
+_amend("C18", "ToHtml returns failures as err, never panics;",
+       "the texts and attribute values of the first max(limit,1) entries of every list are present in the HTML, in order; ToHtml returns failures as err, never panics;")
+_amend("C19", "A case is one expression (all assignments, all generators);",
+       "In a third of the sampled float cases the eight binary operators are declared in a permuted priority order (generators rebuilt per case). "
+       "Every assignment is evaluated a second time through f(st) on ONE stack that is initialised again with st.Init(...) for every evaluation. "
+       "A case is one expression (all assignments, all generators);")
